@@ -77,6 +77,54 @@ def gen_dag(rng, mh, n, tag="g", *, lines=None, max_lines=4, p_merge=0.3, p_fork
     return specs, lines
 
 
+def gen_nested_prefix(rng, mh, tag="g", *, depth=2, ts0=1_500_000_000, nchanges=None, realistic=False):
+    """A history prefix with lines nested `depth` deep below the mainline: a mainline, a
+    line A branched from it, a line B branched from a revision of A (a NON-mainline
+    revision), optionally a line C branched from B; C is merged into B, B into A, A into
+    the mainline (merges of merges).  Revisions are named `tag1..`; returns (specs, lines)
+    with lines[0] = the mainline tip, so that gen_dag(..., lines=lines) can continue."""
+    specs = []
+    count = [len([r for r in mh.revs if r.startswith(tag)])]
+
+    def commit(parents):
+        count[0] += 1
+        rid = f"{tag}{count[0]}"
+        ts = ts0 + len(mh.revs) * 10
+        if realistic and len(parents) > 1:
+            spec = _realistic_merge(rng, mh, rid, parents, ts)
+        else:
+            spec = gen_spec(rng, mh, rid, parents, ts, nchanges)
+        specs.append(spec)
+        return rid
+
+    def chain(base, n):
+        out = []
+        for _ in range(n):
+            base = commit([base])
+            out.append(base)
+        return out
+
+    main = [commit([])] + []
+    main += chain(main[-1], rng.randint(0, 2))
+    tips = []  # per nesting level: the revisions of that line
+    base = rng.choice(main)
+    for _level in range(depth):
+        line = chain(base, rng.randint(1, 3))
+        tips.append(line)
+        base = rng.choice(line)
+    main += chain(main[-1], rng.randint(0, 1))
+    # merge inside out
+    inner = tips[-1][-1]
+    for level in range(depth - 2, -1, -1):
+        line = tips[level]
+        line += chain(line[-1], rng.randint(0, 1))
+        line.append(commit([line[-1], inner]))
+        line += chain(line[-1], rng.randint(0, 1))
+        inner = line[-1]
+    main.append(commit([main[-1], inner]))
+    return specs, [main[-1]]
+
+
 def _natkey(rid):
     head = rid.rstrip("0123456789")
     tail = rid[len(head) :]
@@ -147,6 +195,75 @@ def touched_ids(mh, rid):
     ps = [p for p in mh.revs[rid]["parents"][:1] if p in mh.revs]
     old = {v[0]: (p, v[1], v[2]) for p, v in (mh.tree(ps[0]).items() if ps else [])}
     return {fid for fid in set(cur) | set(old) if cur.get(fid) != old.get(fid)}
+
+
+def perfile_nodes(mh, tip, fid):
+    """Revisions of tip's ancestry in which the COMMIT RULE records a new per-file version
+    of `fid` (used only to decide where per-file history and tree deltas are comparable,
+    never as an expected result).  Rule: the candidate versions are those the parents
+    carry; versions that are per-file ancestors of other candidates drop out; with one
+    head left whose entry (path, kind, text) equals the new entry the head's version is
+    carried over, otherwise (changed against that head, or several heads) the revision
+    records a new version whose per-file parents are the heads."""
+    order = []
+    seen = set()
+
+    def visit(r):
+        stack = [(r, False)]
+        while stack:
+            x, done = stack.pop()
+            if done:
+                order.append(x)
+                continue
+            if x in seen or x not in mh.revs:
+                continue
+            seen.add(x)
+            stack.append((x, True))
+            for par in mh.revs[x]["parents"]:
+                stack.append((par, False))
+
+    visit(tip)
+
+    def entry(r):
+        for path, v in mh.tree(r).items():
+            if v[0] == fid:
+                return (path, v[1], v[2])
+        return None
+
+    ver = {}  # revision -> version (revision id) of fid in its tree
+    pf_parents = {}  # version -> set of versions
+    pf_anc = {}
+
+    def ancestors(v):
+        got = pf_anc.get(v)
+        if got is None:
+            got = set()
+            todo = list(pf_parents.get(v, ()))
+            while todo:
+                a = todo.pop()
+                if a not in got:
+                    got.add(a)
+                    todo.extend(pf_parents.get(a, ()))
+            pf_anc[v] = got
+        return got
+
+    nodes = set()
+    for x in order:
+        e = entry(x)
+        if e is None:
+            continue
+        cands = []
+        for par in mh.revs[x]["parents"]:
+            if par in ver and ver[par] not in cands:
+                cands.append(ver[par])
+        heads = [c for c in cands if not any(o != c and c in ancestors(o) for o in cands)]
+        if len(heads) == 1 and entry(heads[0]) == e:
+            ver[x] = heads[0]
+        else:
+            ver[x] = x
+            pf_parents[x] = set(heads)
+            nodes.add(x)
+    return nodes
 
 
 # ------------------------------------------------------------------------------------
